@@ -130,6 +130,7 @@ fn execute(sc: &Scenario) {
     let mut handles = vec![];
     for w in 0..sc.writers {
         let (stream, sent_total, trace, want) = (stream.clone(), sent_total.clone(), trace.clone(), sc.want);
+        let multi = sc.writers > 1;
         handles.push(shuttle::thread::spawn(move || {
             let sig = std::sync::Arc::new(Signal { flag: shuttle::sync::Mutex::new(false), cv: shuttle::sync::Condvar::new(), wakes: AtomicU64::new(0) });
             let waker = Waker::from(sig.clone());
@@ -152,6 +153,10 @@ fn execute(sc: &Scenario) {
                     Poll::Pending => {
                         blocked = true;
                         trace.lock().unwrap().push(b'P');
+                        if multi {
+                            // two pollers share the stream's single waker slot: they do not wait (only the credit clause is checked)
+                            break;
+                        }
                         // sleep until woken: a lost wake-up leaves this thread blocked for ever (shuttle: deadlock)
                         sig.wait();
                         trace.lock().unwrap().push(b'W');
@@ -196,7 +201,9 @@ fn execute(sc: &Scenario) {
     assert_eq!(left, budget - total_sent, "C12-credit: credit left {left} != initial {} + grants {} - sent {total_sent} (scenario {})", sc.c0, sc.grants(), sc.encode());
     if !sc.closes() {
         assert!(!any_closed, "C12-close: a writer saw the stream closed although nobody closed it");
-        assert_eq!(total_sent, sc.want * sc.writers, "C12-progress: writers finished early");
+        if sc.writers == 1 {
+            assert_eq!(total_sent, sc.want * sc.writers, "C12-progress: writers finished early");
+        }
     }
     let t = trace.lock().unwrap().clone();
     let mut h = 0xcbf29ce484222325u64;
@@ -248,6 +255,25 @@ fn scenarios(thorough: bool) -> Vec<Scenario> {
             }
         }
     }
+    // two concurrent pollers of one stream (`poll_write_push` takes `&self`): each polls up to `want` times and never waits,
+    // so only the credit clause applies: no frame without a unit of credit, credit left = initial + grants - frames sent
+    for c0 in 0..=2u32 {
+        for want in 1..=2u32 {
+            let alphabet = [Op::Ack(1), Op::Ack(2), Op::Close];
+            let mut lists: Vec<Vec<Op>> = vec![vec![]];
+            for a in &alphabet {
+                lists.push(vec![a.clone()]);
+                for b in &alphabet {
+                    lists.push(vec![a.clone(), b.clone()]);
+                }
+            }
+            for ops in lists {
+                if ops.iter().filter(|o| **o == Op::Close).count() <= 1 {
+                    v.push(Scenario { c0, want, writers: 2, ops });
+                }
+            }
+        }
+    }
     v
 }
 
@@ -261,11 +287,22 @@ fn json_escape(s: &str) -> String {
 
 #[test]
 fn verif_c12() {
+    std::println!();
     let tier = env("VERIF_TIER").unwrap_or_else(|| "quick".into());
     let thorough = tier == "thorough";
     let seed: u64 = env("VERIF_SEED").and_then(|s| s.parse::<i64>().ok()).map(|x| x as u64).unwrap_or(20_260_924);
     let out_dir = env("VERIF_C12_OUT").unwrap_or_else(|| "/verif".into());
     let t0 = std::time::Instant::now();
+    // C03 and C04 quantify over "writers racing with incoming acknowledgements" / "every fair schedule" too: their checks run
+    // this exploration in a reduced form and keep the failures that fall under their own statement
+    // (C03: credit conservation; C04: a writer that sleeps although credit arrived)
+    let prop = env("VERIF_C12_AS").unwrap_or_else(|| "C12".into());
+    let reduced = prop != "C12";
+    let mine = |msg: &str| match prop.as_str() {
+        "C03" => msg.contains("C12-credit"),
+        "C04" => msg.contains("deadlock") || msg.contains("C12-progress"),
+        _ => true,
+    };
 
     if let Some(path) = env("VERIF_C12_REPLAY") {
         let text = std::fs::read_to_string(&path).expect("replay file");
@@ -273,21 +310,40 @@ fn verif_c12() {
         let schedule = text.lines().find_map(|l| l.trim().strip_prefix("\"schedule\": \"")).map(|s| s.trim_end_matches(['"', ',']).to_string()).expect("schedule in replay file");
         let sc = Scenario::decode(&scenario);
         std::println!("REPLAY scenario {scenario} schedule {schedule}");
-        let r = std::panic::catch_unwind(|| shuttle::replay(move || execute(&sc), &schedule));
-        match r {
-            Ok(()) => std::println!("REPLAY: pass"),
-            Err(_) => {
-                std::println!("REPLAY: violation reproduced");
-                std::println!("VIOLATION property=C12 replay={path}");
+        let sc1 = sc.clone();
+        let r = std::panic::catch_unwind(|| shuttle::replay(move || execute(&sc1), &schedule));
+        let own = |m: &str| m.contains("C12-") || m.contains("deadlock");
+        let mut failed = match r {
+            Ok(()) => None,
+            Err(p) => Some(p.downcast_ref::<String>().cloned().or_else(|| p.downcast_ref::<&str>().map(|s| (*s).into())).unwrap_or_else(|| "panic".into())),
+        };
+        if failed.as_deref().is_some_and(|m| !own(m)) {
+            // the recorded schedule does not fit this tree's code (different scheduling points): explore the scenario afresh
+            std::println!("REPLAY: the recorded schedule does not apply to this tree; exploring the scenario again");
+            let sc2 = sc.clone();
+            let r = std::panic::catch_unwind(move || {
+                shuttle::Runner::new(shuttle::scheduler::RandomScheduler::new_from_seed(seed, 20_000), shuttle::Config::new()).run({ let s = sc2.clone(); move || execute(&s) });
+                shuttle::Runner::new(shuttle::scheduler::PctScheduler::new_from_seed(seed, 3, 10_000), shuttle::Config::new()).run(move || execute(&sc2));
+            });
+            failed = match r {
+                Ok(()) => None,
+                Err(p) => Some(p.downcast_ref::<String>().cloned().or_else(|| p.downcast_ref::<&str>().map(|s| (*s).into())).unwrap_or_else(|| "panic".into())),
+            };
+        }
+        match failed {
+            Some(m) if mine(&m) => {
+                std::println!("REPLAY: violation reproduced: {}", m.lines().next().unwrap_or(""));
+                std::println!("VIOLATION property={prop} replay={path}");
                 panic!("violation");
             }
+            _ => std::println!("REPLAY: pass"),
         }
         return;
     }
 
     let scs = scenarios(thorough);
-    let iters_random = if thorough { 100_000 } else { 8_000 };
-    let iters_pct = if thorough { 30_000 } else { 3_000 };
+    let iters_random = match (reduced, thorough) { (false, true) => 100_000, (false, false) | (true, true) => 8_000, (true, false) => 2_000 };
+    let iters_pct = match (reduced, thorough) { (false, true) => 30_000, (false, false) | (true, true) => 3_000, (true, false) => 800 };
     let mut violations = 0u32;
     let mut first_msg = String::new();
     let sched_dir = format!("{out_dir}/target/c12-schedules");
@@ -311,8 +367,12 @@ fn verif_c12() {
                 _ => shuttle::Runner::new(shuttle::scheduler::PctScheduler::new_from_seed(s, 3, iters_pct), cfg).run(move || execute(&sc2)),
             });
             if let Err(p) = res {
-                violations += 1;
                 let msg = p.downcast_ref::<String>().cloned().or_else(|| p.downcast_ref::<&str>().map(|s| (*s).into())).unwrap_or_else(|| "panic".into());
+                if !mine(&msg) {
+                    std::println!("NOTE scenario {}: a failure outside {prop}'s statement (reported by the C12 check): {}", sc.encode(), msg.lines().next().unwrap_or(""));
+                    break;
+                }
+                violations += 1;
                 // the failing schedule was persisted by shuttle
                 let mut schedule = String::new();
                 if let Ok(rd) = std::fs::read_dir(&sched_dir) {
@@ -323,17 +383,17 @@ fn verif_c12() {
                     }
                 }
                 let kind = if msg.contains("deadlock") { "lost wake-up: the writer sleeps although credit arrived or the stream was closed (deadlock)" } else { "credit/termination assertion" };
-                let replay = format!("{out_dir}/replays/C12-{}-{:x}.json", sc.encode().replace([':', ','], "_"), s & 0xffff);
+                let replay = format!("{out_dir}/replays/{prop}{}-{}-{:x}.json", if reduced { "-threads" } else { "" }, sc.encode().replace([':', ','], "_"), s & 0xffff);
                 std::fs::create_dir_all(format!("{out_dir}/replays")).ok();
                 let body = format!(
-                    "{{\n \"property\": \"C12\",\n \"section\": \"shuttle\",\n \"scenario\": \"{}\",\n \"scheduler\": \"{}\",\n \"schedule\": \"{}\",\n \"msg\": \"{}\"\n}}\n",
+                    "{{\n \"property\": \"{prop}\",\n \"section\": \"shuttle\",\n \"scenario\": \"{}\",\n \"scheduler\": \"{}\",\n \"schedule\": \"{}\",\n \"msg\": \"{}\"\n}}\n",
                     sc.encode(),
                     ["random", "pct-2", "pct-3"][mode],
                     json_escape(&schedule),
                     json_escape(&format!("{kind}: {}", msg.lines().next().unwrap_or("")))
                 );
                 std::fs::write(&replay, body).ok();
-                std::println!("VIOLATION property=C12 replay={replay}");
+                std::println!("VIOLATION property={prop} replay={replay}");
                 std::println!("  scenario c0:want:writers:ops = {}  [{}]  {kind}: {}", sc.encode(), ["random", "pct-2", "pct-3"][mode], msg.lines().next().unwrap_or(""));
                 if first_msg.is_empty() {
                     first_msg = msg;
@@ -354,7 +414,7 @@ fn verif_c12() {
     let wall = t0.elapsed().as_secs_f64();
     let samples_json: Vec<String> = samples.iter().map(|s| format!("{{\"scenario_c0_want_writers_ops\": \"{s}\"}}")).collect();
     let ev = format!(
-        "{{\n \"property_id\": \"C12\",\n \"tier\": \"{tier}\",\n \"seed\": {},\n \"level\": \"exploration\",\n \"coverage\": {{\n  \"evaluations\": {runs},\n  \"distinct_nontrivial\": {distinct},\n  \"rule\": \"scenarios = initial credit 0..2 x frames wanted 1..3 (one writer thread, polling again after every wake-up) x every list of <= {} operations over {{acknowledge(n), disallow_write}} performed by another thread that lets the writers terminate ({} scenarios); each scenario explored under shuttle's random scheduler ({iters_random} schedules) and PCT with depth 2 and 3 ({iters_pct} schedules each), seeded from VERIF_SEED; every access to the credit counter, the finish flag and the waker is a scheduling point. evaluations = executions (schedules) run; non-trivial = an execution in which a writer's poll returned Pending (it had to be woken by the other thread); distinct = distinct (scenario, event trace) pairs among those.\",\n  \"samples\": [{}],\n  \"scenarios\": {},\n  \"executions_with_blocked_writer\": {blocked},\n  \"exhaustive\": false\n }},\n \"assumptions\": [\"shuttle explores interleavings at atomic-operation granularity under sequential consistency; reorderings only allowed by the C11 memory model for Relaxed accesses are not explored\", \"the code under test (stream.rs, lib.rs, task.rs) is compiled unmodified from /repo's working tree; only the loom dependency is redirected to a shuttle-backed facade and this test module is added in a scratch copy\", \"the AtomicWaker of the facade is a mutex-protected Option<Waker> with the documented register/wake contract\"],\n \"wall_s\": {:.3},\n \"violations\": {violations}\n}}\n",
+        "{{\n \"property_id\": \"{prop}\",\n \"tier\": \"{tier}\",\n \"seed\": {},\n \"level\": \"exploration\",\n \"coverage\": {{\n  \"evaluations\": {runs},\n  \"distinct_nontrivial\": {distinct},\n  \"rule\": \"scenarios = initial credit 0..2 x frames wanted 1..3 (one writer thread, polling again after every wake-up) x every list of <= {} operations over {{acknowledge(n), disallow_write}} performed by another thread that lets the writers terminate, plus two threads polling the same stream concurrently without waiting (credit clause only; initial credit 0..2 x 1..2 polls each x <= 2 operations) ({} scenarios in total); each scenario explored under shuttle's random scheduler ({iters_random} schedules) and PCT with depth 2 and 3 ({iters_pct} schedules each), seeded from VERIF_SEED; every access to the credit counter, the finish flag and the waker is a scheduling point. evaluations = executions (schedules) run; non-trivial = an execution in which a writer's poll returned Pending (it had to be woken by the other thread); distinct = distinct (scenario, event trace) pairs among those.\",\n  \"samples\": [{}],\n  \"scenarios\": {},\n  \"executions_with_blocked_writer\": {blocked},\n  \"exhaustive\": false\n }},\n \"assumptions\": [\"shuttle explores interleavings at atomic-operation granularity under sequential consistency; reorderings only allowed by the C11 memory model for Relaxed accesses are not explored\", \"the code under test (stream.rs, lib.rs, task.rs) is compiled unmodified from /repo's working tree; only the loom dependency is redirected to a shuttle-backed facade and this test module is added in a scratch copy\", \"the AtomicWaker of the facade is a mutex-protected Option<Waker> with the documented register/wake contract\"],\n \"wall_s\": {:.3},\n \"violations\": {violations}\n}}\n",
         seed as i64,
         if thorough { 3 } else { 2 },
         scs.len(),
@@ -362,14 +422,194 @@ fn verif_c12() {
         scs.len(),
         wall
     );
-    std::fs::create_dir_all(format!("{out_dir}/evidence")).ok();
-    std::fs::write(format!("{out_dir}/evidence/C12.json"), ev).expect("write evidence");
-    std::println!("RESULT property=C12 tier={tier} seed={seed} evaluations={runs} distinct_nontrivial={distinct} scenarios={} violations={violations} wall={wall:.1}s", scs.len());
+    if reduced {
+        std::fs::create_dir_all(format!("{out_dir}/target")).ok();
+        std::fs::write(format!("{out_dir}/target/{}_threads.json", prop.to_lowercase()), ev).expect("write thread-level summary");
+    } else {
+        std::fs::create_dir_all(format!("{out_dir}/evidence")).ok();
+        std::fs::write(format!("{out_dir}/evidence/C12.json"), ev).expect("write evidence");
+    }
+    std::println!("RESULT property={prop} section=shuttle tier={tier} seed={seed} evaluations={runs} distinct_nontrivial={distinct} scenarios={} violations={violations} wall={wall:.1}s", scs.len());
     if violations > 0 {
-        panic!("C12 violated: {first_msg}");
+        panic!("{prop} violated: {first_msg}");
     }
     if distinct < 50 {
-        std::println!("INCONCLUSIVE property=C12 only {distinct} distinct non-trivial traces");
+        std::println!("INCONCLUSIVE property={prop} only {distinct} distinct non-trivial traces");
         std::process::exit(2);
+    }
+}
+
+
+// =====================================================================================================
+// C07 (thread-level part): flow-id allocation by application threads racing with a Connect from the peer
+// =====================================================================================================
+
+struct ScriptRng {
+    script: std::collections::VecDeque<u32>,
+    state: u64,
+}
+impl rand::rand_core::TryRng for ScriptRng {
+    type Error = core::convert::Infallible;
+    fn try_next_u32(&mut self) -> Result<u32, Self::Error> {
+        Ok(match self.script.pop_front() {
+            Some(x) => x,
+            None => {
+                self.state = self.state.wrapping_mul(6364136223846793005).wrapping_add(1442695040888963407);
+                (self.state >> 33) as u32 | 0x100
+            }
+        })
+    }
+    fn try_next_u64(&mut self) -> Result<u64, Self::Error> {
+        Ok(u64::from(self.try_next_u32()?))
+    }
+    fn try_fill_bytes(&mut self, dst: &mut [u8]) -> Result<(), Self::Error> {
+        for c in dst.chunks_mut(4) {
+            let v = self.try_next_u32()?.to_le_bytes();
+            c.copy_from_slice(&v[..c.len()]);
+        }
+        Ok(())
+    }
+}
+
+#[derive(Clone, Debug)]
+struct AllocScenario {
+    script: Vec<u32>,
+    openers: usize,
+    peer_ids: Vec<u32>,
+}
+
+fn alloc_execute(sc: &AllocScenario) {
+    use crate::FlowSlot;
+    let rng = ScriptRng { script: sc.script.iter().copied().collect(), state: 99 };
+    let (mux, taskdata) = Multiplexor::new_detailed::<_, NoClock>(DummyWs, Options::new().rwnd(4).stream_buffer_size(16), rng);
+    let crate::task::TaskData { task, mut tx_msg_rx, dropped_flows_rx: _drx } = taskdata;
+    let mux = std::sync::Arc::new(mux);
+    let task = std::sync::Arc::new(task);
+    let mut hs = vec![];
+    let keep = std::sync::Arc::new(StdMutex::new(Vec::new()));
+    for _ in 0..sc.openers {
+        let (mux, keep) = (mux.clone(), keep.clone());
+        hs.push(shuttle::thread::spawn(move || {
+            let (tx, rx) = tokio::sync::oneshot::channel();
+            let id = mux.insert_new_flow(FlowSlot::Requested(tx));
+            keep.lock().unwrap().push(rx);
+            id
+        }));
+    }
+    let peer_ids = sc.peer_ids.clone();
+    let t2 = task.clone();
+    let peer = shuttle::thread::spawn(move || {
+        for id in peer_ids {
+            shuttle::future::block_on(t2.con_recv_new_stream(id, bytes::Bytes::from_static(b"h"), 80, 4)).expect("con_recv_new_stream");
+        }
+    });
+    let ids: Vec<u32> = hs.into_iter().map(|h| h.join().unwrap()).collect();
+    peer.join().unwrap();
+    // what the endpoint put on the wire for the peer's Connects
+    let mut resets = vec![];
+    let mut acks = vec![];
+    while let Ok(m) = tx_msg_rx.try_recv() {
+        if let Message::Binary(b) = m {
+            let f = crate::frame::Frame::try_from(b).expect("own frame");
+            match f.opcode() {
+                crate::frame::OpCode::Reset => resets.push(f.id),
+                crate::frame::OpCode::Acknowledge => acks.push(f.id),
+                _ => {}
+            }
+        }
+    }
+    let mut sorted = ids.clone();
+    sorted.sort_unstable();
+    sorted.dedup();
+    assert!(sorted.len() == ids.len(), "C07-alloc: two concurrent stream requests were given the same flow id: {ids:?} (scenario {sc:?})");
+    assert!(!ids.contains(&0), "C07-alloc: flow id 0 handed out: {ids:?}");
+    let flows = mux.flows.read();
+    for id in &ids {
+        assert!(matches!(flows.get(id), Some(FlowSlot::Requested(_))), "C07-alloc: the pending request on flow {id:08x} was disturbed (slot is not Requested any more); ids {ids:?}, peer Connects {:?}, resets {resets:?}, acks {acks:?}", sc.peer_ids);
+    }
+    for pid in &sc.peer_ids {
+        let n_reset = resets.iter().filter(|r| *r == pid).count();
+        let n_ack = acks.iter().filter(|r| *r == pid).count();
+        let dup = sc.peer_ids.iter().filter(|x| *x == pid).count();
+        if *pid == 0 {
+            assert!(n_ack == 0 && n_reset == dup, "C07-alloc: Connect with id 0 not rejected");
+        } else if ids.contains(pid) {
+            assert!(n_ack == 0 && n_reset == dup, "C07-alloc: peer Connect on flow {pid:08x}, which a local request uses, got {n_ack} Acknowledge / {n_reset} Reset (ids {ids:?})");
+        } else {
+            // free id: the first Connect is acknowledged, a duplicate is rejected
+            assert!(n_ack == 1 && n_reset == dup - 1, "C07-alloc: peer Connect on free flow {pid:08x} got {n_ack} Acknowledge / {n_reset} Reset");
+            assert!(matches!(flows.get(pid), Some(FlowSlot::Established(_))), "C07-alloc: acknowledged flow {pid:08x} is not established");
+        }
+    }
+    drop(flows);
+    RUNS.fetch_add(1, StdOrdering::Relaxed);
+    let mut h = 0xcbf29ce484222325u64;
+    for b in ids.iter().chain(resets.iter()).chain(acks.iter()) {
+        h = (h ^ u64::from(*b)).wrapping_mul(0x100000001b3);
+    }
+    let collided = sc.peer_ids.iter().any(|p| ids.contains(p));
+    if collided {
+        RUNS_BLOCKED.fetch_add(1, StdOrdering::Relaxed);
+        TRACES.lock().unwrap().get_or_insert_with(HashSet::new).insert(h ^ (sc.script.len() as u64) << 50 ^ (sc.openers as u64) << 60);
+    }
+}
+
+#[test]
+fn verif_c07_alloc() {
+    std::println!();
+    let tier = env("VERIF_TIER").unwrap_or_else(|| "quick".into());
+    let thorough = tier == "thorough";
+    let seed: u64 = env("VERIF_SEED").and_then(|s| s.parse::<i64>().ok()).map(|x| x as u64).unwrap_or(20_260_924);
+    let out_dir = env("VERIF_C12_OUT").unwrap_or_else(|| "/verif".into());
+    let t0 = std::time::Instant::now();
+    let mut scs = vec![];
+    for openers in 1..=3usize {
+        for script in [vec![5u32, 5, 5, 6, 7], vec![0, 5, 0, 5, 6, 6, 7], vec![5, 6, 5, 6, 5, 6, 7, 8], vec![7, 7, 7, 7]] {
+            for peer_ids in [vec![5u32], vec![6, 5], vec![0, 5, 5], vec![9]] {
+                scs.push(AllocScenario { script: script.clone(), openers, peer_ids });
+            }
+        }
+    }
+    let iters = if thorough { 20_000 } else { 2_000 };
+    let mut violations = 0;
+    let mut first = String::new();
+    for (k, sc) in scs.iter().enumerate() {
+        for mode in 0..2 {
+            let sc2 = sc.clone();
+            let s = seed ^ ((k as u64) << 8) ^ mode;
+            let res = std::panic::catch_unwind(move || match mode {
+                0 => shuttle::Runner::new(shuttle::scheduler::RandomScheduler::new_from_seed(s, iters), shuttle::Config::new()).run(move || alloc_execute(&sc2)),
+                _ => shuttle::Runner::new(shuttle::scheduler::PctScheduler::new_from_seed(s, 3, iters / 2), shuttle::Config::new()).run(move || alloc_execute(&sc2)),
+            });
+            if let Err(p) = res {
+                violations += 1;
+                let msg = p.downcast_ref::<String>().cloned().or_else(|| p.downcast_ref::<&str>().map(|s| (*s).into())).unwrap_or_else(|| "panic".into());
+                let replay = format!("{out_dir}/replays/C07-alloc-{k}-{mode}.json");
+                std::fs::create_dir_all(format!("{out_dir}/replays")).ok();
+                std::fs::write(&replay, format!("{{\n \"property\": \"C07\",\n \"section\": \"thread-level-allocation\",\n \"scenario\": \"{}\",\n \"msg\": \"{}\"\n}}\n", json_escape(&format!("{sc:?}")), json_escape(msg.lines().next().unwrap_or("")))).ok();
+                std::println!("VIOLATION property=C07 replay={replay}");
+                std::println!("  section=thread-level-allocation : {}", msg.lines().next().unwrap_or(""));
+                if first.is_empty() {
+                    first = msg;
+                }
+                break;
+            }
+        }
+        if violations >= 2 {
+            break;
+        }
+    }
+    let runs = RUNS.load(StdOrdering::Relaxed);
+    let collided = RUNS_BLOCKED.load(StdOrdering::Relaxed);
+    let distinct = TRACES.lock().unwrap().as_ref().map(|s| s.len()).unwrap_or(0);
+    std::fs::create_dir_all(format!("{out_dir}/target")).ok();
+    std::fs::write(
+        format!("{out_dir}/target/c07_alloc.json"),
+        format!("{{\"engine\": \"shuttle (random + PCT depth 3) over the crate's lock shim\", \"scenarios\": {}, \"executions\": {runs}, \"executions_with_id_collision\": {collided}, \"distinct_outcomes_with_collision\": {distinct}, \"violations\": {violations}, \"wall_s\": {:.2}, \"what\": \"1-3 application threads allocating flow ids from a scripted generator (repeats, zeros) through insert_new_flow while another thread processes Connect frames from the peer on the same ids: ids distinct and non-zero, pending requests undisturbed, colliding Connects reset, free ones acknowledged once\"}}\n", scs.len(), t0.elapsed().as_secs_f64()),
+    )
+    .ok();
+    std::println!("RESULT property=C07 section=thread-level-allocation executions={runs} with_collision={collided} violations={violations} wall={:.1}s", t0.elapsed().as_secs_f64());
+    if violations > 0 {
+        panic!("C07 allocation violated: {first}");
     }
 }
